@@ -111,15 +111,32 @@ type Lemma struct {
 	Props  []string
 	Line   int
 	Export bool // becomes an axiom of the INT prelude
+	// induction: the goal is proved for the variable Induct assuming the lemma (hypotheses => goal)
+	// at Induct-1; InductFrom is a lower bound of Induct implied by the hypotheses (well-foundedness).
+	Induct     string
+	InductFrom *Clause
+}
+
+// Fold: a recursive specification function over the first n elements of a byte sequence,
+//   F(a, 0) = init;  F(a, n) = step with acc = F(a, n-1), c = a[n-1], n, and every other fold name G
+//   standing for G(a, n-1).
+// It is an uninterpreted function for the solver; the generator adds the unfolding at every
+// application that occurs in an obligation (to depth 2).
+type Fold struct {
+	Name string
+	Init *Clause
+	Step *Clause
+	Line int
 }
 
 type ContractFile struct {
 	Funcs  map[string]*Contract
 	Order  []string
 	Lemmas []*Lemma
+	Folds  []*Fold
 }
 
-var kwRe = regexp.MustCompile(`^(define|limit|apply|mention|cut|func|lemma|mode|returns|logical|requires|ensures|loop|call|waive|panics|props|trusted|assert|assume|split|nosafety|forall|hyp|holds|export|uses|assigns)\b`)
+var kwRe = regexp.MustCompile(`^(induct|alias|fold|init|step|define|limit|apply|mention|cut|func|lemma|mode|returns|logical|requires|ensures|loop|call|waive|panics|props|trusted|assert|assume|split|nosafety|forall|hyp|holds|export|uses|assigns)\b`)
 
 func parseContractFile(path string) (*ContractFile, error) {
 	f, err := os.Open(path)
@@ -156,6 +173,7 @@ func parseContractFile(path string) (*ContractFile, error) {
 	}
 	var cur *Contract
 	var lem *Lemma
+	var fold *Fold
 	mkClause := func(text string, line int) (*Clause, error) {
 		e, err := parseExpr(text)
 		if err != nil {
@@ -168,7 +186,7 @@ func parseContractFile(path string) (*ContractFile, error) {
 	for _, it := range items {
 		kw := kwRe.FindString(it.text)
 		rest := strings.TrimSpace(it.text[len(kw):])
-		if kw == "func" || kw == "lemma" {
+		if kw == "func" || kw == "lemma" || kw == "fold" {
 			macros = map[string]string{}
 			macroOrder = nil
 		} else if kw == "define" {
@@ -195,6 +213,7 @@ func parseContractFile(path string) (*ContractFile, error) {
 		case "func":
 			cur = &Contract{Func: rest, Mode: "int", Loops: map[int]*LoopSpec{}, Line: it.line}
 			lem = nil
+			fold = nil
 			if _, dup := cf.Funcs[rest]; dup {
 				return nil, fail("duplicate contract for %s", rest)
 			}
@@ -204,7 +223,47 @@ func parseContractFile(path string) (*ContractFile, error) {
 		case "lemma":
 			lem = &Lemma{Name: rest, Mode: "int", Line: it.line}
 			cur = nil
+			fold = nil
 			cf.Lemmas = append(cf.Lemmas, lem)
+			continue
+		case "alias":
+			// alias new = existing: the same contract for another instantiation of a generic function
+			parts := strings.SplitN(rest, "=", 2)
+			if len(parts) != 2 {
+				return nil, fail("bad alias clause")
+			}
+			nw, old := strings.TrimSpace(parts[0]), strings.TrimSpace(parts[1])
+			oc, ok := cf.Funcs[old]
+			if !ok {
+				return nil, fail("alias of unknown contract %s", old)
+			}
+			if _, dup := cf.Funcs[nw]; dup {
+				return nil, fail("duplicate contract for %s", nw)
+			}
+			cp := *oc
+			cp.Func = nw
+			cf.Funcs[nw] = &cp
+			cf.Order = append(cf.Order, nw)
+			cur, lem, fold = nil, nil, nil
+			continue
+		case "fold":
+			fold = &Fold{Name: rest, Line: it.line}
+			cur, lem = nil, nil
+			cf.Folds = append(cf.Folds, fold)
+			continue
+		case "init", "step":
+			if fold == nil {
+				return nil, fail("clause %s outside fold", kw)
+			}
+			c, err := mkClause(rest, it.line)
+			if err != nil {
+				return nil, err
+			}
+			if kw == "init" {
+				fold.Init = c
+			} else {
+				fold.Step = c
+			}
 			continue
 		}
 		if lem != nil {
@@ -235,6 +294,21 @@ func parseContractFile(path string) (*ContractFile, error) {
 				lem.Props = strings.Fields(rest)
 			case "export":
 				lem.Export = true
+			case "induct":
+				// induct m from <expr>
+				parts := strings.SplitN(rest, " from ", 2)
+				if len(parts) != 2 {
+					return nil, fail("induct clause: induct <var> from <lower bound>")
+				}
+				lem.Induct = strings.TrimSpace(parts[0])
+				c, err := mkClause(parts[1], it.line)
+				if err != nil {
+					return nil, err
+				}
+				if regexp.MustCompile(`\b` + lem.Induct + `\b`).MatchString(parts[1]) {
+					return nil, fail("induction bound must not mention %s", lem.Induct)
+				}
+				lem.InductFrom = c
 			default:
 				return nil, fail("clause %s not allowed in lemma", kw)
 			}
